@@ -141,4 +141,56 @@ def originFieldName (assigned : Option PStr) : PStr :=
   | some s => s
   | none => [87, 73, 76, 68, 67, 65, 84]
 
+/-! ### the dimension between two checks (writes) -/
+
+/-- the DIMENSION attribute of a parameter / computation / calibration measurement between two checks: what it holds,
+and whether that was derived from the values at the latest check (`dimension.value is _dimension_from_value`) rather
+than assigned by the user -/
+structure DimState where
+  held : Option (List Nat)
+  derived : Bool
+  deriving Repr, DecidableEq
+
+/-- the user assigns a dimension (or none was ever assigned) -/
+def DimState.assigned (d : Option (List Nat)) : DimState := { held := d, derived := false }
+
+/-- `_forget_derived_dimension`: what the checks start from -/
+def DimState.forget (s : DimState) : Option (List Nat) := if s.derived then none else s.held
+
+/-- one `_run_checks_and_set_defaults` of a PARAMETER / COMPUTATION: -> (state afterwards, outcome) -/
+def paramCheckSt (single : Bool) (values : PyVal) (zonesCount : Option Nat) (axes : Option (List (Option Nat)))
+    (s : DimState) : DimState × Except Err Unit :=
+  match paramDefaults single values zonesCount s.forget axes with
+  | .ok d => ({ held := d, derived := s.forget.isNone && d.isSome }, .ok ())
+  | .error e => ({ held := s.forget, derived := false }, .error e)
+
+/-- the controlled attributes of a CALIBRATION-MEASUREMENT check / set the dimension in turn; a failure leaves what
+the earlier ones set -/
+def foldDimSt : List PyVal → DimState → DimState × Except Err Unit
+  | [], s => (s, .ok ())
+  | v :: vs, s =>
+    match checkOrSetDim s.held v with
+    | .ok d => foldDimSt vs { held := d, derived := s.derived || (s.held.isNone && d.isSome) }
+    | .error e => (s, .error e)
+
+def calMeasCheckSt (controlled : List PyVal) (axes : Option (List (Option Nat))) (s : DimState) :
+    DimState × Except Err Unit :=
+  match (do checkAxes axes s.forget; calCoefDefaults controlled : Except Err Unit) with
+  | .error e => ({ held := s.forget, derived := false }, .error e)
+  | .ok _ => foldDimSt controlled { held := s.forget, derived := false }
+
+/-- a history of checks of one item, each with the values (zones, axes) the item holds at that moment; the user does
+not assign a dimension in between -/
+inductive DimCheck
+  | param (single : Bool) (values : PyVal) (zonesCount : Option Nat) (axes : Option (List (Option Nat)))
+  | calMeas (controlled : List PyVal) (axes : Option (List (Option Nat)))
+
+def DimCheck.run : DimCheck → DimState → DimState × Except Err Unit
+  | .param single v zc ax, s => paramCheckSt single v zc ax s
+  | .calMeas vs ax, s => calMeasCheckSt vs ax s
+
+def dimHistory : List DimCheck → DimState → DimState
+  | [], s => s
+  | c :: cs, s => dimHistory cs (c.run s).1
+
 end Dlis
